@@ -11,6 +11,7 @@ from .c13 import enum_paths, const_of
 from .ctr import ctr_backends
 from . import c05, c10
 from .routing_rules import helpers as RH
+from .c04_alg import Algebra, pass_linearity
 
 TITLE = ("The algebraic fact (xor-out/xor-in equals a fresh schedule) needs linearity of the TK1 schedule and is not decided. "
          "Decided, all necessary: (R1) shadow-tweak protocol in set_tweak: the bytes handed to the first xor pass are a copy "
@@ -84,47 +85,114 @@ def check_set_tweak(prog, an, rep, cn, name, f, c, decl):
         rep.violation("C04.R3", cons + ":provenance", f.loc(prov_bad[0]), "the stored tweak is not kept as 'argument bytes followed by zeros': %s, so the remembered tweak no longer equals the last tweak set and later changes depend on earlier tweaks" % prov_bad[1], cfg=cn)
     else:
         rep.ok("C04.R3", cons + ":provenance", fsite(f), "the tweak field is only written by copies of the caller's bytes and zero fills", cfg=cn)
-    if copy is None or len(xor_calls) != 2:
-        # single-pass variant: xor(old ^ new) is accepted only if recognised; anything else is not modelled
-        rep.inconclusive("C04.R1", cons, fsite(f), "shadow-tweak idiom not recognised (copy of the old tweak: %s, xor passes: %d)" % ("found" if copy else "missing", len(xor_calls)), cfg=cn)
-        return
-    n = const_of(f, copy["ops"][2])
-    shadow = is_local(copy["ops"][0])
-    ok = True
-    if n != tsz:
-        rep.violation("C04.R1", cons + ":copy", f.loc(copy), "only %s of the %d stored tweak bytes are saved before the field is overwritten" % (n, tsz), cfg=cn)
-        ok = False
-    late = [w for w in field_writes if not f.inst_dominates(copy["id"], w["id"])]
-    if late:
-        rep.violation("C04.R1", cons + ":order", f.loc(late[0]), "the stored tweak is overwritten before (or without) the old value being saved: the old tweak cannot be xored out of the schedule", cfg=cn)
-        ok = False
-    if not field_writes:
-        rep.violation("C04.R1", cons + ":store", fsite(f), "the new tweak is never stored in the schedule's tweak field: from the second change on the result depends on earlier tweaks", cfg=cn)
-        ok = False
-    c_old = [x for x in xor_calls if is_local(x["ops"][1]) == shadow]
-    c_new = [x for x in xor_calls if is_field(x["ops"][1])]
-    if len(c_old) != 1 or len(c_new) != 1:
-        rep.violation("C04.R1", cons + ":passes", f.loc(xor_calls[0]), "the two schedule passes do not take (saved old tweak, stored new tweak): %d use the saved copy, %d use the field" % (len(c_old), len(c_new)), cfg=cn)
-        ok = False
+    # ---- R1: what the passes xor into the schedule (byte-range XOR algebra, c04_alg)
+    sidx = [k for k, p in enumerate(decl["params"]) if p["name"] in ("tweak_size", "size")]
+    ksoff = None
+    for m in prog.ditypes.get(ht, {}).get("members", []):
+        if m["name"] == "ks":
+            ksoff = m["off"]
+    res = None
+    if sidx and ksoff is not None:
+        A = Algebra(prog, an, f, toff, tsz, tidx, sidx[0], ksoff)
+        try:
+            res = A.run()
+        except Exception:
+            res = None
+    if res is not None and any(r["calls"] for r in res):
+        okA = True
+        nsucc = 0
+        for r in res:
+            if r["success"] is False:
+                if r["calls"]:
+                    rep.violation("C04.R1", cons + ":reject", f.loc(r["calls"][0][0]), "a rejecting path of set_tweak has already xored into the schedule", cfg=cn)
+                    okA = False
+                continue
+            nsucc += 1
+            want_head = frozenset(["OLD"]) if r["null"] else frozenset(["OLD", "ARG"])
+            want_tail = frozenset(["OLD"])
+            tot = r["total"]
+            where = f.loc(r["calls"][0][0]) if r["calls"] else fsite(f)
+            label = cons + (":null" if r["null"] else ":bytes")
+            def show(x):
+                return "unknown bytes" if x is None else ("0" if not x else " ^ ".join(sorted({"OLD": "old tweak", "ARG": "new tweak"}[t] for t in x)))
+            if tot["head"] is None or tot["tail"] is None:
+                rep.violation("C04.R1", label, where, "bytes of unknown content reach the schedule pass (first tweak_size bytes: %s; rest: %s)" % (show(tot["head"]), show(tot["tail"])), cfg=cn)
+                okA = False
+            elif tot["head"] != want_head or tot["tail"] != want_tail:
+                rep.violation("C04.R1", label, where,
+                              "the passes xor (%s) over the first tweak_size bytes and (%s) over the rest into the schedule; a fresh schedule for the new tweak needs (%s) and (%s): %s" %
+                              (show(tot["head"]), show(tot["tail"]), show(want_head), show(want_tail),
+                               "part of the old tweak is never removed, so the result depends on earlier tweaks" if "OLD" not in (tot["tail"] or ()) or "OLD" not in (tot["head"] or ()) else "the new tweak is not applied as stored"), cfg=cn)
+                okA = False
+        if nsucc == 0:
+            rep.inconclusive("C04.R1", cons, fsite(f), "no success path of set_tweak recognised", cfg=cn)
+            okA = False
+        # the pass routine(s): same routine everywhere, linear under the constants of the call
+        routines = {}
+        for r in res:
+            for (ci, g, bid) in r["calls"]:
+                consts = {k: int(o[1]) for k, o in enumerate(ci["ops"]) if o[0] == "c"}
+                routines.setdefault((g.key, tuple(sorted(consts.items()))), (ci, g, consts))
+        if len({k[0] for k in routines}) > 1:
+            rep.violation("C04.R1", cons + ":passes", fsite(f), "old and new tweak go through different routines (%s)" % sorted(k[0][1] for k in routines), cfg=cn)
+            okA = False
+        for (gk, cs), (ci, g, consts) in sorted(routines.items()):
+            bad, nst, nreach = pass_linearity(prog, g, consts)
+            if bad:
+                rep.violation("C04.R1", construct(g) + ":linear", g.loc(bad[0][0]), "the schedule pass used by set_tweak is not linear in the tweak: %s (the xor-out / xor-in passes only cancel in pairs, so the result depends on how many tweak changes came before)" % bad[0][1], cfg=cn)
+                okA = False
+            elif nst == 0:
+                rep.violation("C04.R1", construct(g) + ":linear", fsite(g), "the routine handed the tweak by set_tweak never stores into the key schedule under these arguments", cfg=cn)
+                okA = False
+            else:
+                rep.ok("C04.R1", construct(g) + ":linear", fsite(g), "%d schedule stores, each xors only key-derived values into the stored word (no constants)" % nst, cfg=cn)
+        if okA:
+            rep.ok("C04.R1", cons, fsite(f), "on every success path the buffers handed to %s sum to old tweak ^ zero-padded new tweak, byte for byte (%d paths)" % (sorted({g.name for r in res for (_, g, _) in r["calls"]}), nsucc), cfg=cn)
     else:
-        if c_old[0]["callee"][1] != c_new[0]["callee"][1]:
-            rep.violation("C04.R1", cons + ":passes", f.loc(c_new[0]), "old and new tweak go through different routines (%s / %s)" % (c_old[0]["callee"][1], c_new[0]["callee"][1]), cfg=cn)
-            ok = False
-        if not f.inst_dominates(copy["id"], c_old[0]["id"]):
-            rep.violation("C04.R1", cons + ":passes", f.loc(c_old[0]), "the xor-out pass runs before the old tweak is saved", cfg=cn)
-            ok = False
-        rds = [r for r in fl.reads if r[0]["id"] == c_new[0]["id"] and r[1] == (("arg", 0), ()) and
-               lf_is_const(r[2]) and toff <= r[2][0] < toff + tsz]
-        if not rds or any(not r[4] for r in rds):
-            rep.violation("C04.R1", cons + ":passes", f.loc(c_new[0]), "the xor-in pass reads the tweak field before it has been completely rewritten", cfg=cn)
-            ok = False
-        # both passes address the same key schedule (ks->ks)
-        a0, a1 = am.of(c_old[0]["ops"][0]), am.of(c_new[0]["ops"][0])
-        if a0 is None or a1 is None or akey(a0) != akey(a1):
-            rep.violation("C04.R1", cons + ":passes", f.loc(c_new[0]), "the two passes update different schedules", cfg=cn)
-            ok = False
-    if ok:
-        rep.ok("C04.R1", cons, fsite(f), "copy(old) -> rewrite field -> xor(old copy), xor(field) through %s" % xor_calls[0]["callee"][1], cfg=cn)
+        def old_idiom():
+            if copy is None or len(xor_calls) != 2:
+                # single-pass variant: xor(old ^ new) is accepted only if recognised; anything else is not modelled
+                rep.inconclusive("C04.R1", cons, fsite(f), "shadow-tweak idiom not recognised (copy of the old tweak: %s, xor passes: %d)" % ("found" if copy else "missing", len(xor_calls)), cfg=cn)
+                return False
+            n = const_of(f, copy["ops"][2])
+            shadow = is_local(copy["ops"][0])
+            ok = True
+            if n != tsz:
+                rep.violation("C04.R1", cons + ":copy", f.loc(copy), "only %s of the %d stored tweak bytes are saved before the field is overwritten" % (n, tsz), cfg=cn)
+                ok = False
+            late = [w for w in field_writes if not f.inst_dominates(copy["id"], w["id"])]
+            if late:
+                rep.violation("C04.R1", cons + ":order", f.loc(late[0]), "the stored tweak is overwritten before (or without) the old value being saved: the old tweak cannot be xored out of the schedule", cfg=cn)
+                ok = False
+            if not field_writes:
+                rep.violation("C04.R1", cons + ":store", fsite(f), "the new tweak is never stored in the schedule's tweak field: from the second change on the result depends on earlier tweaks", cfg=cn)
+                ok = False
+            c_old = [x for x in xor_calls if is_local(x["ops"][1]) == shadow]
+            c_new = [x for x in xor_calls if is_field(x["ops"][1])]
+            if len(c_old) != 1 or len(c_new) != 1:
+                rep.violation("C04.R1", cons + ":passes", f.loc(xor_calls[0]), "the two schedule passes do not take (saved old tweak, stored new tweak): %d use the saved copy, %d use the field" % (len(c_old), len(c_new)), cfg=cn)
+                ok = False
+            else:
+                if c_old[0]["callee"][1] != c_new[0]["callee"][1]:
+                    rep.violation("C04.R1", cons + ":passes", f.loc(c_new[0]), "old and new tweak go through different routines (%s / %s)" % (c_old[0]["callee"][1], c_new[0]["callee"][1]), cfg=cn)
+                    ok = False
+                if not f.inst_dominates(copy["id"], c_old[0]["id"]):
+                    rep.violation("C04.R1", cons + ":passes", f.loc(c_old[0]), "the xor-out pass runs before the old tweak is saved", cfg=cn)
+                    ok = False
+                rds = [r for r in fl.reads if r[0]["id"] == c_new[0]["id"] and r[1] == (("arg", 0), ()) and
+                       lf_is_const(r[2]) and toff <= r[2][0] < toff + tsz]
+                if not rds or any(not r[4] for r in rds):
+                    rep.violation("C04.R1", cons + ":passes", f.loc(c_new[0]), "the xor-in pass reads the tweak field before it has been completely rewritten", cfg=cn)
+                    ok = False
+                # both passes address the same key schedule (ks->ks)
+                a0, a1 = am.of(c_old[0]["ops"][0]), am.of(c_new[0]["ops"][0])
+                if a0 is None or a1 is None or akey(a0) != akey(a1):
+                    rep.violation("C04.R1", cons + ":passes", f.loc(c_new[0]), "the two passes update different schedules", cfg=cn)
+                    ok = False
+            if ok:
+                rep.ok("C04.R1", cons, fsite(f), "copy(old) -> rewrite field -> xor(old copy), xor(field) through %s" % xor_calls[0]["callee"][1], cfg=cn)
+            return True
+        old_idiom()
     # R3 normalisation
     obj = (("arg", 0), ())
     succ = [e for e in fl.exits if e[0] in ("nz", "?")]
